@@ -10,6 +10,8 @@ package main
 
 import (
 	"fmt"
+	"os"
+	"path/filepath"
 	"sort"
 	"strings"
 
@@ -466,6 +468,27 @@ func runC08(c *Ctx) error {
 	}
 	if err := c.c08Resolve(); err != nil {
 		return err
+	}
+	// handwritten programs (shapes that once slipped through), run by the Go toolchain
+	if files, _ := filepath.Glob(filepath.Join(c.Corpus, "C08-programs", "*.go")); len(files) > 0 {
+		sort.Strings(files)
+		var progs []GoProg
+		var feats []map[string]bool
+		for _, f := range files {
+			b, err := os.ReadFile(f)
+			if err != nil {
+				return err
+			}
+			gp := GoProg{Src: string(b)}
+			if first := strings.SplitN(gp.Src, "\n", 2)[0]; strings.HasPrefix(first, "// imports: ") {
+				gp.Imports = strings.Fields(strings.TrimPrefix(first, "// imports: "))
+			}
+			progs = append(progs, gp)
+			feats = append(feats, map[string]bool{"corpus-" + strings.TrimSuffix(filepath.Base(f), ".go"): true})
+		}
+		if err := c.goDiff("go-toolchain-corpus", progs, feats); err != nil {
+			return err
+		}
 	}
 	return c.c08Programs()
 }
